@@ -364,7 +364,9 @@ class SpecRT:
                     out.append(f)
         return out
 
-    def assumptions(self, st, extra_terms=None):
+    def assumptions(self, st, extra_terms=None, force=False):
+        if getattr(self.ex, 'muted', 0) and not force:
+            return []       # obligations of exploratory runs are discarded
         out = list(st.pc) + self.instantiate_facts(st)
         # the schemas themselves, quantified (for goals that quantify over fresh elements)
         q = z3.Int('q!')
@@ -430,6 +432,20 @@ class SpecRT:
         return outs
 
     def havoc(self, modifies, st):
+        keys = set()
+        for m in modifies:
+            if m[0] == 'all':
+                keys.add((m[1], m[2]))
+        self._in_havoc = True       # ghost effects of a callee are what its contract says, not the field hooks
+        try:
+            self._havoc(modifies, st)
+        finally:
+            self._in_havoc = False
+            hk = self.ex.hooks.get('after_havoc')
+            if hk and keys:
+                hk(st, keys)
+
+    def _havoc(self, modifies, st):
         for m in modifies:
             if m[0] == 'field':
                 _, ov, fld = m
